@@ -39,7 +39,6 @@ import (
 	"fmt"
 	"go/types"
 	"io"
-	"reflect"
 	"strings"
 	"sync"
 	"unsafe"
@@ -75,9 +74,6 @@ type closure struct {
 
 type bad struct{}
 
-type rtype struct {
-	t types.Type
-}
 
 // Hash functions and equivalence relation:
 
@@ -184,13 +180,6 @@ func (x iface) hash(outer types.Type) int {
 	return hashType(x.t)*8581 + hash(outer, x.t, x.v)
 }
 
-func (x rtype) hash(_ types.Type) int {
-	return hashType(x.t)
-}
-
-func (x rtype) eq(_ types.Type, y interface{}) bool {
-	return types.Identical(x.t, y.(rtype).t)
-}
 
 // equals returns true iff x and y are equal according to Go's
 // linguistic equivalence relation for type t.
@@ -234,15 +223,13 @@ func equals(t types.Type, x, y value) bool {
 		return x == y.(string)
 	case *value:
 		return x == y.(*value)
-	case chan value:
-		return x == y.(chan value)
+	case *vchan:
+		return x == y.(*vchan)
 	case structure:
 		return x.eq(t, y)
 	case array:
 		return x.eq(t, y)
 	case iface:
-		return x.eq(t, y)
-	case rtype:
 		return x.eq(t, y)
 	}
 
@@ -295,15 +282,11 @@ func hash(outer, t types.Type, x value) int {
 		return hashString(x)
 	case *value:
 		return int(uintptr(unsafe.Pointer(x)))
-	case chan value:
-		return int(uintptr(reflect.ValueOf(x).Pointer()))
 	case structure:
 		return x.hash(t)
 	case array:
 		return x.hash(t)
 	case iface:
-		return x.hash(t)
-	case rtype:
 		return x.hash(t)
 	}
 	panic(fmt.Sprintf("unhashable type %v", outer))
@@ -366,35 +349,25 @@ func writeValue(buf *bytes.Buffer, v value) {
 	case nil, bool, int, int8, int16, int32, int64, uint, uint8, uint16, uint32, uint64, uintptr, float32, float64, complex64, complex128, string:
 		fmt.Fprintf(buf, "%v", v)
 
-	case map[value]value:
+	case *omap:
 		buf.WriteString("map[")
-		sep := ""
-		for k, e := range v {
-			buf.WriteString(sep)
-			sep = " "
-			writeValue(buf, k)
-			buf.WriteString(":")
-			writeValue(buf, e)
-		}
-		buf.WriteString("]")
-
-	case *hashmap:
-		buf.WriteString("map[")
-		sep := " "
-		for _, e := range v.entries() {
-			for e != nil {
-				buf.WriteString(sep)
-				sep = " "
+		if v != nil {
+			for i, e := range v.ents {
+				if i > 0 {
+					buf.WriteString(" ")
+				}
 				writeValue(buf, e.key)
 				buf.WriteString(":")
-				writeValue(buf, e.value)
-				e = e.next
+				writeValue(buf, e.val)
 			}
 		}
 		buf.WriteString("]")
 
-	case chan value:
-		fmt.Fprintf(buf, "%v", v) // (an address)
+	case sym:
+		buf.WriteString(v.t.String())
+
+	case *vchan:
+		fmt.Fprintf(buf, "%p", v)
 
 	case *value:
 		if v == nil {
@@ -441,9 +414,6 @@ func writeValue(buf *bytes.Buffer, v value) {
 	case *ssa.Function, *ssa.Builtin, *closure:
 		fmt.Fprintf(buf, "%p", v) // (an address)
 
-	case rtype:
-		buf.WriteString(v.t.String())
-
 	case tuple:
 		// Unreachable in well-formed Go programs
 		buf.WriteString("(")
@@ -488,37 +458,3 @@ func (it *stringIter) next() tuple {
 	return okv
 }
 
-type mapIter struct {
-	iter *reflect.MapIter
-	ok   bool
-}
-
-func (it *mapIter) next() tuple {
-	it.ok = it.iter.Next()
-	if !it.ok {
-		return []value{false, nil, nil}
-	}
-	k, v := it.iter.Key().Interface(), it.iter.Value().Interface()
-	return []value{true, k, v}
-}
-
-type hashmapIter struct {
-	iter *reflect.MapIter
-	ok   bool
-	cur  *entry
-}
-
-func (it *hashmapIter) next() tuple {
-	for {
-		if it.cur != nil {
-			k, v := it.cur.key, it.cur.value
-			it.cur = it.cur.next
-			return []value{true, k, v}
-		}
-		it.ok = it.iter.Next()
-		if !it.ok {
-			return []value{false, nil, nil}
-		}
-		it.cur = it.iter.Value().Interface().(*entry)
-	}
-}
